@@ -27,3 +27,12 @@ Proof. unfold p_get_last_picture, get_last_picture. destruct (last_picture s); r
 Lemma bridge_p_get_reference_picture s : p_get_reference_picture s = Ok (get_reference_picture s).
 Proof. unfold p_get_reference_picture, get_reference_picture. destruct (reference_picture s); reflexivity. Qed.
 
+
+(* cleanup_buffers itself (and_then / remove_entry on the two keys, a fresh map, two conditional insertions) *)
+Lemma bridge_p_cleanup_buffers s : p_cleanup_buffers s = cleanup_buffers s.
+Proof.
+  unfold p_cleanup_buffers, cleanup_buffers, pm_remove_entry. cbv zeta.
+  destruct (last_picture s) as [lk|]; [destruct (pm_get (reference_states s) lk)|];
+    (destruct (reference_picture s) as [rk|]; [|reflexivity]);
+    match goal with |- context [pm_get ?m rk] => destruct (pm_get m rk) end; reflexivity.
+Qed.
